@@ -539,17 +539,23 @@ def _client_cmp(schd):
             tp = TR.ds_client[_TP].get(itask.tokens.id)
             cli[f"{itask.tdef.name}.{TR.pt(itask.point)}"] = _tp_proj(tp) if tp is not None else None
     return {"client_equal": not diff, "client_diff": sorted(diff)[:8], "checksum_ok": ck_ok, "client": cli,
-            "client_diff_class": "none" if not diff else ("dup-edge-refs" if only_dup_edges else "other")}
+            "client_diff_class": "none" if not diff else ("dup-refs" if only_dup_edges else "other")}
 
 def _same_but_dup_edges(a, b):
-    """Do two elements differ only by repeated entries in their `edges` reference list?"""
+    """Do two elements differ only by repeated entries in their reference lists (`edges`, `jobs`)?
+    (apply_delta merges an 'updated' element with MergeFrom, which appends repeated fields)"""
     if not hasattr(a, "edges"):
         return False
     a2, b2 = type(a)(), type(b)()
     a2.CopyFrom(a); b2.CopyFrom(b)
-    ea, eb = sorted(set(a2.edges)), sorted(set(b2.edges))
-    del a2.edges[:]; del b2.edges[:]
-    return ea == eb and a2.SerializeToString(deterministic=True) == b2.SerializeToString(deterministic=True)
+    same = True
+    for f in ("edges", "jobs"):
+        if not hasattr(a2, f):
+            continue
+        ea, eb = sorted(set(getattr(a2, f))), sorted(set(getattr(b2, f)))
+        del getattr(a2, f)[:]; del getattr(b2, f)[:]
+        same = same and ea == eb
+    return same and a2.SerializeToString(deterministic=True) == b2.SerializeToString(deterministic=True)
 
 def _rh(pool):
     return TR.pt(pool.runahead_limit_point) if pool.runahead_limit_point is not None else None
